@@ -527,8 +527,9 @@ def tensor_sampling_cases(rng, tier):
         form = 'list' if it % 2 == 0 else 'tuple'
         comps = [gen_ex(rng, d, rng.choice([0, 1, 2]), rng.sample(range(d), rng.randint(0, d)) if rng.random() < 0.4 else None)
                  for _ in range(k)]
-        if form == 'tuple' and len(set(frozenset(e.coords()) for e in comps)) == 1 \
-                and len(comps[0].coords()) < d:
+        def bshape(e):
+            return tuple(n if kk in e.coords() else 1 for kk, n in enumerate(sp.shape))
+        if form == 'tuple' and len(set(bshape(e) for e in comps)) == 1 and bshape(comps[0]) != tuple(sp.shape):
             # all components would have the same partial shape: recorded finding
             # sampling-tensor-equal-partial-shapes-valueerror (probed separately); make one component full
             full = Ex('coord', 0)
